@@ -1,1 +1,651 @@
 use super::*;
+use crate::verif_common::*;
+
+// ===========================================================================
+// C07: route shapes and dispatch paths
+// ===========================================================================
+const ABC: [u8; 3] = [b'/', b'a', b'b'];
+
+struct NopHandler(u32);
+impl HandlerErased for NopHandler {
+    fn handle(&self, req: &Message) -> Result<Message, RepeError> {
+        let mut m = Message::builder().id(req.header.id).build();
+        m.header.ec = self.0;
+        Ok(m)
+    }
+}
+
+fn struct_error_display_stub(_e: &crate::structs::StructError, _f: &mut std::fmt::Formatter<'_>) -> std::fmt::Result {
+    Ok(())
+}
+
+/// Mount prefix is a per-instance constant (with a symbolic prefix the
+/// `trim_end_matches` normalisation makes the SAT query too hard even for 3 bytes);
+/// the PATH is symbolic: every string of <= 5 bytes over {'/','a','b'}.
+fn registry_mount(prefix: &'static str) {
+    let pre = prefix.as_bytes();
+    let path = SymStr::<5>::any(&ABC);
+    let rr = RegisteredRegistry::new(prefix, Arc::new(Registry::new()));
+    assert!(bytes_eq(rr.prefix.as_bytes(), pre), "canonical prefix was altered");
+    let h: Arc<dyn HandlerErased> = Arc::new(NopHandler(0));
+    let entry = RegistryEntry { prefix: rr.prefix.clone(), raw: h.clone(), dispatched: h };
+    let under = under_prefix(pre, path.bytes());
+    assert!(entry.matches(path.as_str()) == under, "router prefix match disagrees with the '/'-boundary rule");
+    match rr.pointer_for(path.as_str()) {
+        Some(ptr) => {
+            assert!(under, "handler accepts a path the mount does not own");
+            if pre.is_empty() {
+                if path.len == 0 {
+                    assert!(ptr == "/");
+                } else {
+                    assert!(bytes_eq(ptr.as_bytes(), path.bytes()));
+                }
+            } else if path.len == pre.len() {
+                assert!(ptr == "/");
+            } else {
+                assert!(bytes_eq(ptr.as_bytes(), &path.buf[pre.len()..path.len]), "mount stripped more or less than its prefix");
+            }
+        }
+        None => assert!(!under, "handler refuses a path the router hands to it"),
+    }
+    kani::cover!(under && path.len == 5);
+    kani::cover!(!under || pre.is_empty());
+    std::mem::forget(entry);
+    std::mem::forget(rr);
+}
+
+struct DummyStruct;
+impl RepeStruct for DummyStruct {
+    fn repe_handle(&mut self, _s: &[&str], _b: Option<Value>) -> crate::structs::StructResult<Option<Value>> {
+        Ok(None)
+    }
+}
+
+fn struct_mount(prefix: &'static str) {
+    let pre = prefix.as_bytes();
+    let path = SymStr::<5>::any(&ABC);
+    let rs = RegisteredStruct::<DummyStruct, Mutex<DummyStruct>>::new(prefix, Arc::new(Mutex::new(DummyStruct)));
+    assert!(bytes_eq(rs.root.as_bytes(), pre));
+    let h: Arc<dyn HandlerErased> = Arc::new(NopHandler(0));
+    let entry = StructEntry { root: rs.root.clone(), raw: h.clone(), dispatched: h };
+    let under = under_prefix(pre, path.bytes());
+    assert!(entry.matches(path.as_str()) == under, "router root match disagrees with the '/'-boundary rule");
+    match rs.relative_pointer(path.as_str()) {
+        Some(rel) => {
+            assert!(under);
+            assert!(bytes_eq(rel.as_bytes(), &path.buf[pre.len()..path.len]), "struct mount stripped more or less than its root");
+        }
+        None => assert!(!under, "struct handler refuses a path the router hands to it"),
+    }
+    kani::cover!(under && path.len == 5);
+    kani::cover!(!under || pre.is_empty());
+    std::mem::forget(entry);
+    std::mem::forget(rs);
+}
+
+macro_rules! c07_mount {
+    ($name:ident, $f:ident, $prefix:expr) => {
+        #[kani::proof]
+        #[kani::stub(std::hash::RandomState::new, crate::verif_common::random_state_stub)]
+        #[kani::stub(std::fmt::format, crate::verif_common::format_stub)]
+        #[kani::unwind(8)]
+        fn $name() {
+            $f($prefix);
+        }
+    };
+}
+
+//@ name: c07_registry_mount_root
+//@ prop: C07, C14
+//@ tier: quick
+//@ clause: a registry mounted at "" receives exactly the paths equal to its prefix or extending it at a '/' boundary (so /ab is not under /a); router-side matching and handler-side prefix stripping agree; mounting only strips the prefix
+//@ funcs: RegistryEntry::matches; RegisteredRegistry::new; RegisteredRegistry::pointer_for
+//@ symbolic: the path: every string of <= 5 bytes over the alphabet {'/','a','b'} (incl. shared string prefixes without a '/' boundary)
+//@ bounds: mount prefix "" (per-instance constant); |path| <= 5; unwind 8
+//@ oracle: byte-level predicate written from the statement
+//@ stubs: RandomState::new -> fixed keys (Registry holds an empty HashMap); alloc::fmt::format -> stub (normalisation branch for prefixes without a leading '/', not taken)
+c07_mount!(c07_registry_mount_root, registry_mount, "");
+
+//@ name: c07_struct_mount_root
+//@ prop: C07
+//@ tier: quick
+//@ clause: a struct mounted at "" receives exactly the paths equal to its prefix or extending it at a '/' boundary (so /ab is not under /a); router-side matching and handler-side prefix stripping agree; mounting only strips the prefix
+//@ funcs: StructEntry::matches; RegisteredStruct::new; RegisteredStruct::relative_pointer
+//@ symbolic: the path: every string of <= 5 bytes over the alphabet {'/','a','b'} (incl. shared string prefixes without a '/' boundary)
+//@ bounds: mount prefix "" (per-instance constant); |path| <= 5; unwind 8
+//@ oracle: byte-level predicate written from the statement
+//@ stubs: RandomState::new -> fixed keys (Registry holds an empty HashMap); alloc::fmt::format -> stub (normalisation branch for prefixes without a leading '/', not taken)
+c07_mount!(c07_struct_mount_root, struct_mount, "");
+
+//@ name: c07_registry_mount_a
+//@ prop: C07, C14
+//@ tier: quick
+//@ clause: a registry mounted at "/a" receives exactly the paths equal to its prefix or extending it at a '/' boundary (so /ab is not under /a); router-side matching and handler-side prefix stripping agree; mounting only strips the prefix
+//@ funcs: RegistryEntry::matches; RegisteredRegistry::new; RegisteredRegistry::pointer_for
+//@ symbolic: the path: every string of <= 5 bytes over the alphabet {'/','a','b'} (incl. shared string prefixes without a '/' boundary)
+//@ bounds: mount prefix "/a" (per-instance constant); |path| <= 5; unwind 8
+//@ oracle: byte-level predicate written from the statement
+//@ stubs: RandomState::new -> fixed keys (Registry holds an empty HashMap); alloc::fmt::format -> stub (normalisation branch for prefixes without a leading '/', not taken)
+c07_mount!(c07_registry_mount_a, registry_mount, "/a");
+
+//@ name: c07_struct_mount_a
+//@ prop: C07
+//@ tier: quick
+//@ clause: a struct mounted at "/a" receives exactly the paths equal to its prefix or extending it at a '/' boundary (so /ab is not under /a); router-side matching and handler-side prefix stripping agree; mounting only strips the prefix
+//@ funcs: StructEntry::matches; RegisteredStruct::new; RegisteredStruct::relative_pointer
+//@ symbolic: the path: every string of <= 5 bytes over the alphabet {'/','a','b'} (incl. shared string prefixes without a '/' boundary)
+//@ bounds: mount prefix "/a" (per-instance constant); |path| <= 5; unwind 8
+//@ oracle: byte-level predicate written from the statement
+//@ stubs: RandomState::new -> fixed keys (Registry holds an empty HashMap); alloc::fmt::format -> stub (normalisation branch for prefixes without a leading '/', not taken)
+c07_mount!(c07_struct_mount_a, struct_mount, "/a");
+
+//@ name: c07_registry_mount_ab
+//@ prop: C07, C14
+//@ tier: thorough
+//@ clause: a registry mounted at "/ab" receives exactly the paths equal to its prefix or extending it at a '/' boundary (so /ab is not under /a); router-side matching and handler-side prefix stripping agree; mounting only strips the prefix
+//@ funcs: RegistryEntry::matches; RegisteredRegistry::new; RegisteredRegistry::pointer_for
+//@ symbolic: the path: every string of <= 5 bytes over the alphabet {'/','a','b'} (incl. shared string prefixes without a '/' boundary)
+//@ bounds: mount prefix "/ab" (per-instance constant); |path| <= 5; unwind 8
+//@ oracle: byte-level predicate written from the statement
+//@ stubs: RandomState::new -> fixed keys (Registry holds an empty HashMap); alloc::fmt::format -> stub (normalisation branch for prefixes without a leading '/', not taken)
+c07_mount!(c07_registry_mount_ab, registry_mount, "/ab");
+
+//@ name: c07_struct_mount_ab
+//@ prop: C07
+//@ tier: thorough
+//@ clause: a struct mounted at "/ab" receives exactly the paths equal to its prefix or extending it at a '/' boundary (so /ab is not under /a); router-side matching and handler-side prefix stripping agree; mounting only strips the prefix
+//@ funcs: StructEntry::matches; RegisteredStruct::new; RegisteredStruct::relative_pointer
+//@ symbolic: the path: every string of <= 5 bytes over the alphabet {'/','a','b'} (incl. shared string prefixes without a '/' boundary)
+//@ bounds: mount prefix "/ab" (per-instance constant); |path| <= 5; unwind 8
+//@ oracle: byte-level predicate written from the statement
+//@ stubs: RandomState::new -> fixed keys (Registry holds an empty HashMap); alloc::fmt::format -> stub (normalisation branch for prefixes without a leading '/', not taken)
+c07_mount!(c07_struct_mount_ab, struct_mount, "/ab");
+
+//@ name: c07_registry_mount_a_b
+//@ prop: C07, C14
+//@ tier: thorough
+//@ clause: a registry mounted at "/a/b" receives exactly the paths equal to its prefix or extending it at a '/' boundary (so /ab is not under /a); router-side matching and handler-side prefix stripping agree; mounting only strips the prefix
+//@ funcs: RegistryEntry::matches; RegisteredRegistry::new; RegisteredRegistry::pointer_for
+//@ symbolic: the path: every string of <= 5 bytes over the alphabet {'/','a','b'} (incl. shared string prefixes without a '/' boundary)
+//@ bounds: mount prefix "/a/b" (per-instance constant); |path| <= 5; unwind 8
+//@ oracle: byte-level predicate written from the statement
+//@ stubs: RandomState::new -> fixed keys (Registry holds an empty HashMap); alloc::fmt::format -> stub (normalisation branch for prefixes without a leading '/', not taken)
+c07_mount!(c07_registry_mount_a_b, registry_mount, "/a/b");
+
+//@ name: c07_struct_mount_a_b
+//@ prop: C07
+//@ tier: thorough
+//@ clause: a struct mounted at "/a/b" receives exactly the paths equal to its prefix or extending it at a '/' boundary (so /ab is not under /a); router-side matching and handler-side prefix stripping agree; mounting only strips the prefix
+//@ funcs: StructEntry::matches; RegisteredStruct::new; RegisteredStruct::relative_pointer
+//@ symbolic: the path: every string of <= 5 bytes over the alphabet {'/','a','b'} (incl. shared string prefixes without a '/' boundary)
+//@ bounds: mount prefix "/a/b" (per-instance constant); |path| <= 5; unwind 8
+//@ oracle: byte-level predicate written from the statement
+//@ stubs: RandomState::new -> fixed keys (Registry holds an empty HashMap); alloc::fmt::format -> stub (normalisation branch for prefixes without a leading '/', not taken)
+c07_mount!(c07_struct_mount_a_b, struct_mount, "/a/b");
+
+// ---- struct segments -------------------------------------------------------
+const SEG_MAX: usize = 20;
+const SEG_BYTES: usize = 4;
+
+struct Recorder {
+    count: usize,
+    lens: [usize; SEG_MAX],
+    bytes: [[u8; SEG_BYTES]; SEG_MAX],
+    calls: u32,
+}
+impl Recorder {
+    fn new() -> Self {
+        Recorder { count: 0, lens: [0; SEG_MAX], bytes: [[0; SEG_BYTES]; SEG_MAX], calls: 0 }
+    }
+}
+impl RepeStruct for Recorder {
+    fn repe_handle(&mut self, segs: &[&str], _b: Option<Value>) -> crate::structs::StructResult<Option<Value>> {
+        self.calls += 1;
+        self.count = segs.len();
+        let mut i = 0;
+        while i < segs.len() && i < SEG_MAX {
+            let b = segs[i].as_bytes();
+            self.lens[i] = b.len();
+            let mut j = 0;
+            while j < b.len() && j < SEG_BYTES {
+                self.bytes[i][j] = b[j];
+                j += 1;
+            }
+            i += 1;
+        }
+        Ok(None)
+    }
+}
+
+/// RFC 6901 reference tokenizer (byte loop): split on '/', then ~0 -> '~',
+/// ~1 -> '/'. `well_formed` is false on a '~' not followed by 0/1.
+struct RefTokens {
+    count: usize,
+    lens: [usize; 6],
+    bytes: [[u8; SEG_BYTES]; 6],
+    well_formed: bool,
+}
+fn ref_tokens(rel: &[u8]) -> RefTokens {
+    let mut t = RefTokens { count: 0, lens: [0; 6], bytes: [[0; SEG_BYTES]; 6], well_formed: true };
+    if rel.is_empty() {
+        return t;
+    }
+    // rel[0] == '/'
+    t.count = 1;
+    let mut i = 1;
+    while i < rel.len() {
+        let c = rel[i];
+        if c == b'/' {
+            t.count += 1;
+        } else if c == b'~' {
+            if i + 1 < rel.len() && (rel[i + 1] == b'0' || rel[i + 1] == b'1') {
+                let k = t.count - 1;
+                t.bytes[k][t.lens[k]] = if rel[i + 1] == b'0' { b'~' } else { b'/' };
+                t.lens[k] += 1;
+                i += 1;
+            } else {
+                t.well_formed = false;
+            }
+        } else {
+            let k = t.count - 1;
+            t.bytes[k][t.lens[k]] = c;
+            t.lens[k] += 1;
+        }
+        i += 1;
+    }
+    t
+}
+
+fn struct_segments<const N: usize>(alphabet: &[u8]) {
+    let rel = SymStr::<N>::any(alphabet);
+    kani::assume(rel.len == 0 || rel.buf[0] == b'/');
+    let want = ref_tokens(rel.bytes());
+    kani::assume(want.well_formed); // malformed escapes are outside the quantifier
+    let mut rec = Recorder::new();
+    let req = Message::builder().id(7).build();
+    let r = dispatch_struct_segments(&mut rec, rel.as_str(), None, &req);
+    assert!(r.is_ok());
+    assert!(rec.calls == 1, "struct handler not invoked exactly once");
+    assert!(rec.count == want.count, "segment count differs from the RFC 6901 token count");
+    let mut i = 0;
+    while i < want.count {
+        assert!(rec.lens[i] == want.lens[i], "segment length differs from the RFC 6901 token");
+        let mut j = 0;
+        while j < want.lens[i] {
+            assert!(rec.bytes[i][j] == want.bytes[i][j], "segment differs from the unescaped RFC 6901 token");
+            j += 1;
+        }
+        i += 1;
+    }
+    kani::cover!(want.count == N);
+    kani::cover!(want.count == 2 && want.lens[0] == 1);
+    std::mem::forget(r);
+}
+
+//@ prop: C07
+//@ tier: experimental
+//@ timeout: 3000
+//@ clause: the segments a mounted struct sees are exactly the RFC 6901 reference tokens of the remaining path (escape-free paths: empty tokens, trailing slash, root)
+//@ funcs: server::dispatch_struct_segments (escape-free fast path); message::create_response_unstamped
+//@ symbolic: remaining path of <= 4 bytes over {'/','a','b'} (empty or '/'-prefixed)
+//@ bounds: |relative| <= 4 (<= 4 segments); unwind 8
+//@ oracle: 25-line byte-loop RFC 6901 tokenizer in the harness
+//@ stubs: alloc::fmt::format -> empty String
+#[kani::proof]
+#[kani::stub(std::fmt::format, crate::verif_common::format_stub)]
+#[kani::stub(<crate::structs::StructError as std::fmt::Display>::fmt, struct_error_display_stub)]
+#[kani::unwind(8)]
+fn c07_struct_segments_plain() {
+    struct_segments::<4>(&ABC);
+}
+
+//@ prop: C07
+//@ tier: experimental
+//@ clause: as c07_struct_segments_plain with ~0 / ~1 escapes (well-formed; malformed escapes are outside the quantifier): fast path and json_pointer::parse path both deliver the unescaped tokens
+//@ funcs: server::dispatch_struct_segments; json_pointer::parse
+//@ symbolic: remaining path of <= 3 bytes over {'/','~','0','1','a'} (all escape shapes that fit)
+//@ bounds: |relative| <= 3; unwind 8
+//@ oracle: byte-loop RFC 6901 tokenizer
+//@ stubs: alloc::fmt::format -> empty String
+//@ timeout: 3000
+#[kani::proof]
+#[kani::stub(std::fmt::format, crate::verif_common::format_stub)]
+#[kani::stub(<crate::structs::StructError as std::fmt::Display>::fmt, struct_error_display_stub)]
+#[kani::unwind(8)]
+fn c07_struct_segments_escaped() {
+    struct_segments::<3>(&[b'/', b'~', b'0', b'1', b'a']);
+}
+
+fn depth_boundary<const L: usize>() {
+    let buf = [b'/'; 18];
+    let rel = unsafe { std::str::from_utf8_unchecked(&buf[..L]) };
+    let mut rec = Recorder::new();
+    let id: u64 = kani::any();
+    let req = Message::builder().id(id).build();
+    let r = dispatch_struct_segments(&mut rec, rel, None, &req);
+    assert!(r.is_ok() && rec.calls == 1);
+    assert!(rec.count == L, "segments lost or duplicated at the stack/heap boundary");
+    let mut i = 0;
+    while i < L {
+        assert!(rec.lens[i] == 0);
+        i += 1;
+    }
+    std::mem::forget(r);
+}
+
+macro_rules! c07_depth {
+    ($name:ident, $l:expr) => {
+        #[kani::proof]
+        #[kani::stub(std::fmt::format, crate::verif_common::format_stub)]
+        #[kani::stub(<crate::structs::StructError as std::fmt::Display>::fmt, struct_error_display_stub)]
+        #[kani::unwind(21)]
+        fn $name() {
+            depth_boundary::<$l>();
+        }
+    };
+}
+
+//@ name: c07_struct_segments_depth_15
+//@ prop: C07
+//@ tier: experimental
+//@ clause: paths of any depth: at the 16-segment stack/heap boundary of the splitter every segment is delivered, in order (depth 15)
+//@ funcs: server::dispatch_struct_segments (stack buffer and Vec overflow)
+//@ symbolic: request id only - the path is 15 slashes (15 empty segments), a per-instance constant (memchr/split over a symbolic 18-byte string does not finish)
+//@ bounds: depth 15; all-empty segments; unwind 21
+//@ oracle: count == 15 and every delivered segment is empty
+//@ stubs: alloc::fmt::format -> stub; <StructError as Display>::fmt -> writes nothing
+c07_depth!(c07_struct_segments_depth_15, 15);
+
+//@ name: c07_struct_segments_depth_16
+//@ prop: C07
+//@ tier: experimental
+//@ clause: paths of any depth: at the 16-segment stack/heap boundary of the splitter every segment is delivered, in order (depth 16)
+//@ funcs: server::dispatch_struct_segments (stack buffer and Vec overflow)
+//@ symbolic: request id only - the path is 16 slashes (16 empty segments), a per-instance constant (memchr/split over a symbolic 18-byte string does not finish)
+//@ bounds: depth 16; all-empty segments; unwind 21
+//@ oracle: count == 16 and every delivered segment is empty
+//@ stubs: alloc::fmt::format -> stub; <StructError as Display>::fmt -> writes nothing
+c07_depth!(c07_struct_segments_depth_16, 16);
+
+//@ name: c07_struct_segments_depth_17
+//@ prop: C07
+//@ tier: experimental
+//@ clause: paths of any depth: at the 16-segment stack/heap boundary of the splitter every segment is delivered, in order (depth 17)
+//@ funcs: server::dispatch_struct_segments (stack buffer and Vec overflow)
+//@ symbolic: request id only - the path is 17 slashes (17 empty segments), a per-instance constant (memchr/split over a symbolic 18-byte string does not finish)
+//@ bounds: depth 17; all-empty segments; unwind 21
+//@ oracle: count == 17 and every delivered segment is empty
+//@ stubs: alloc::fmt::format -> stub; <StructError as Display>::fmt -> writes nothing
+c07_depth!(c07_struct_segments_depth_17, 17);
+
+//@ name: c07_struct_segments_depth_18
+//@ prop: C07
+//@ tier: experimental
+//@ clause: paths of any depth: at the 16-segment stack/heap boundary of the splitter every segment is delivered, in order (depth 18)
+//@ funcs: server::dispatch_struct_segments (stack buffer and Vec overflow)
+//@ symbolic: request id only - the path is 18 slashes (18 empty segments), a per-instance constant (memchr/split over a symbolic 18-byte string does not finish)
+//@ bounds: depth 18; all-empty segments; unwind 21
+//@ oracle: count == 18 and every delivered segment is empty
+//@ stubs: alloc::fmt::format -> stub; <StructError as Display>::fmt -> writes nothing
+c07_depth!(c07_struct_segments_depth_18, 18);
+
+// ---- Router::get precedence -------------------------------------------------
+const PATHS: [&str; 14] = ["", "/", "/e", "/r", "/r/", "/r/x", "/r/x/y", "/rx", "/s", "/s/y", "/s/z", "/sy", "/q", "/e/"];
+
+//@ prop: C07
+//@ tier: experimental
+//@ clause: an exactly registered path always wins over a mounted prefix; mounts receive only their own subtree; unrelated paths resolve to nothing
+//@ funcs: Router::get; StructEntry::matches (table assembled in-crate: exact-route map + two struct mounts in either order)
+//@ symbolic: the registration order of the two mounts; all 14 boundary paths are looked up (concrete keys); the table is concrete: exact /e, /r/x, /s/y; struct mounts at /r and /s
+//@ bounds: concrete routing table and a fixed list of 14 looked-up paths (hashing a symbolic string through std's SipHash/hashbrown is out of reach): close to a concrete run, stated as such
+//@ oracle: expected handler per path from the statement, identified by Arc::ptr_eq
+//@ stubs: RandomState::new -> fixed keys
+#[kani::proof]
+#[kani::stub(std::hash::RandomState::new, crate::verif_common::random_state_stub)]
+#[kani::stub(std::fmt::format, crate::verif_common::format_stub)]
+#[kani::unwind(16)]
+fn c07_router_get_precedence() {
+    let he: Arc<dyn HandlerErased> = Arc::new(NopHandler(1));
+    let hrx: Arc<dyn HandlerErased> = Arc::new(NopHandler(2));
+    let hsy: Arc<dyn HandlerErased> = Arc::new(NopHandler(3));
+    let reg: Arc<dyn HandlerErased> = Arc::new(NopHandler(4));
+    let st: Arc<dyn HandlerErased> = Arc::new(NopHandler(5));
+    // The table is assembled directly (in-crate) instead of through the registration
+    // API: every insert_route / register_* replaces an Arc'd map, and CBMC then has to
+    // encode the drop of Arc<dyn HandlerErased> over every implementor, recursively
+    // through MiddlewarePipeline - that did not finish. Registration itself is
+    // exercised by c07_middleware_order_independent.
+    let mut map: HashMap<String, RouterMapEntry> = HashMap::new();
+    map.insert(String::from("/e"), RouterMapEntry { raw: he.clone(), dispatched: he.clone() });
+    map.insert(String::from("/r/x"), RouterMapEntry { raw: hrx.clone(), dispatched: hrx.clone() });
+    map.insert(String::from("/s/y"), RouterMapEntry { raw: hsy.clone(), dispatched: hsy.clone() });
+    let mounts_first: bool = kani::any();
+    let (m0, m1) = if mounts_first { ("/r", "/s") } else { ("/s", "/r") };
+    let (h0, h1) = if mounts_first { (reg.clone(), st.clone()) } else { (st.clone(), reg.clone()) };
+    let router = Router {
+        inner: Arc::new(map),
+        structs: Arc::new(vec![
+            StructEntry { root: String::from(m0), raw: h0.clone(), dispatched: h0 },
+            StructEntry { root: String::from(m1), raw: h1.clone(), dispatched: h1 },
+        ]),
+        registries: Arc::new(Vec::new()),
+        middlewares: Arc::new(Vec::new()),
+    };
+    // every listed path is looked up (concrete keys: hashing a symbolic string through
+    // SipHash/hashbrown is out of reach); the symbolic input is the mount order
+    let mut i = 0;
+    while i < PATHS.len() {
+        let got = router.get(PATHS[i]);
+        let expect: Option<&Arc<dyn HandlerErased>> = match i {
+            2 => Some(&he),
+            5 => Some(&hrx),
+            9 => Some(&hsy),
+            3 | 4 | 6 => Some(&reg),
+            8 | 10 => Some(&st),
+            _ => None,
+        };
+        match (&got, expect) {
+            (Some(g), Some(e)) => assert!(Arc::ptr_eq(g, e), "lookup resolved to the wrong handler"),
+            (None, None) => {}
+            (Some(_), None) => panic!("a path outside every route and mount resolved to a handler"),
+            (None, Some(_)) => panic!("a registered path did not resolve"),
+        }
+        std::mem::forget(got);
+        i += 1;
+    }
+    std::mem::forget(router);
+}
+
+// ---- middleware -------------------------------------------------------------
+static mut MW_RUNS: u32 = 0;
+
+struct CountingMw;
+impl Middleware for CountingMw {
+    fn handle(&self, req: &Message, next: Next<'_>) -> Result<Message, RepeError> {
+        unsafe {
+            MW_RUNS += 1;
+        }
+        next.run(req)
+    }
+}
+
+struct OffReaderNop;
+impl HandlerErased for OffReaderNop {
+    fn handle(&self, req: &Message) -> Result<Message, RepeError> {
+        let mut m = Message::builder().id(req.header.id).build();
+        m.header.ec = 77;
+        Ok(m)
+    }
+    fn execution(&self) -> Execution {
+        Execution::OffReader
+    }
+}
+
+//@ prop: C07
+//@ tier: quick
+//@ clause: handling a request behind a forwarding middleware chain yields the same response as the bare handler; the middleware runs exactly once per dispatch on every dispatch entry point; execution mode is preserved through the pipeline
+//@ funcs: wrap_with_middlewares; MiddlewarePipeline::{handle,handle_with_ctx,execution}; Next::run; Next::new; Next::with_ctx; default HandlerErased::handle_view
+//@ symbolic: request id, dispatch entry point (owned handle / handle_with_ctx / borrowed handle_view), chain length 1 or 2
+//@ bounds: forwarding middlewares only; custom erased handler
+//@ oracle: counter == chain length per dispatch; response equals the bare handler's; wrapped != raw iff the chain is non-empty
+#[kani::proof]
+#[kani::unwind(6)]
+fn c07_middleware_pipeline_transparent() {
+    let h: Arc<dyn HandlerErased> = Arc::new(OffReaderNop);
+    let none: Arc<Vec<Arc<dyn Middleware>>> = Arc::new(Vec::new());
+    let bare = wrap_with_middlewares(&h, &none);
+    assert!(Arc::ptr_eq(&bare, &h), "an empty chain must not wrap");
+    let two: bool = kani::any();
+    let chain: Arc<Vec<Arc<dyn Middleware>>> = if two {
+        Arc::new(vec![Arc::new(CountingMw) as Arc<dyn Middleware>, Arc::new(CountingMw) as Arc<dyn Middleware>])
+    } else {
+        Arc::new(vec![Arc::new(CountingMw) as Arc<dyn Middleware>])
+    };
+    let got = wrap_with_middlewares(&h, &chain);
+    assert!(!Arc::ptr_eq(&got, &h), "route is not wrapped by the middleware pipeline");
+    assert!(got.execution() == Execution::OffReader, "execution mode lost through the middleware pipeline");
+    let id: u64 = kani::any();
+    let req = Message::builder().id(id).query_str("/e").build();
+    let ctx = CallContext::detached("/e");
+    let before = unsafe { MW_RUNS };
+    let resp = match kani::any::<u8>() % 3 {
+        0 => got.handle(&req),
+        1 => got.handle_with_ctx(&req, &ctx),
+        _ => {
+            let view = MessageView { header: req.header, query: &req.query, body: &req.body };
+            got.handle_view(&view, &ctx)
+        }
+    };
+    let want_runs = if two { 2 } else { 1 };
+    assert!(unsafe { MW_RUNS } == before + want_runs, "middleware did not run exactly once each for this dispatch");
+    match &resp {
+        Ok(r) => assert!(r.header.id == id && r.header.ec == 77, "forwarding middleware changed the response"),
+        Err(_) => panic!("forwarding middleware turned a success into an error"),
+    }
+    std::mem::forget(resp);
+    std::mem::forget(req);
+    std::mem::forget(got);
+    std::mem::forget(chain);
+}
+
+//@ prop: C07
+//@ tier: experimental
+//@ timeout: 3000
+//@ clause: middleware applies to a mount whether it was registered before or after that mount (the dispatched slot is rebuilt on registration)
+//@ funcs: Router::new; Router::register_middleware; Router::register_struct_shared; wrap_with_middlewares
+//@ symbolic: registration order (middleware first / last)
+//@ bounds: one forwarding middleware, one struct mount, no exact routes (inserting into the exact-route HashMap needs an unwind bound under which the recursive drop glue of Arc<dyn HandlerErased> -> MiddlewarePipeline explodes; registry mounts own a serde_json tree whose drop glue is out of reach)
+//@ oracle: the mount's dispatched slot is wrapped (differs from raw) in both orders, and equals raw without middleware
+//@ stubs: RandomState::new -> fixed keys; alloc::fmt::format -> stub
+#[kani::proof]
+#[kani::stub(std::hash::RandomState::new, crate::verif_common::random_state_stub)]
+#[kani::stub(std::fmt::format, crate::verif_common::format_stub)]
+#[kani::unwind(4)]
+fn c07_middleware_order_independent() {
+    let mw_first: bool = kani::any();
+    let mut router = Router::new();
+    if mw_first {
+        let m = router.register_middleware(CountingMw);
+        std::mem::forget(m);
+    }
+    router.register_struct_shared::<DummyStruct, Mutex<DummyStruct>>("/s", Arc::new(Mutex::new(DummyStruct)));
+    if !mw_first {
+        assert!(Arc::ptr_eq(&router.structs[0].raw, &router.structs[0].dispatched), "mount wrapped although no middleware is registered");
+        let m = router.register_middleware(CountingMw);
+        std::mem::forget(m);
+    }
+    assert!(router.structs.len() == 1);
+    assert!(!Arc::ptr_eq(&router.structs[0].raw, &router.structs[0].dispatched), "struct mount bypasses middleware");
+    assert!(router.middlewares.len() == 1);
+    std::mem::forget(router);
+}
+
+// ---- owned vs borrowed ---------------------------------------------------------
+/// Compare the two responses the way a transport would see them: after the
+/// request query has been echoed into a query-less response.
+fn same_after_echo(owned: &Message, viewed: &Message, req_query: &[u8]) -> bool {
+    let qo: &[u8] = if owned.query.is_empty() { req_query } else { &owned.query };
+    let qv: &[u8] = if viewed.query.is_empty() { req_query } else { &viewed.query };
+    owned.header.id == viewed.header.id
+        && owned.header.ec == viewed.header.ec
+        && owned.header.body_format == viewed.header.body_format
+        && owned.header.query_format == viewed.header.query_format
+        && owned.header.notify == viewed.header.notify
+        && bytes_eq(&owned.body, &viewed.body)
+        && bytes_eq(qo, qv)
+}
+
+/// `bf`: Some(code) pins the body-format code to a per-instance constant (so the
+/// serde parser branches a rejected format never takes are pruned by constant
+/// propagation instead of being encoded); None leaves it symbolic. The view is
+/// built directly from its parts (a frame round trip would route the header
+/// through a memcpy and lose the constant).
+fn owned_vs_view_filtered(h: &dyn HandlerErased, bf: Option<u16>, body_len: usize) {
+    let mut hd = any_header();
+    hd.spec = crate::constants::REPE_SPEC;
+    hd.version = 1;
+    if let Some(code) = bf {
+        hd.body_format = code;
+    }
+    let body_bytes: [u8; 3] = kani::any();
+    let q = [b'/', b'f'];
+    hd.query_length = 2;
+    hd.body_length = body_len as u64;
+    hd.length = 50 + body_len as u64;
+    let view = MessageView { header: hd, query: &q, body: &body_bytes[..body_len] };
+    let ctx = CallContext::detached("/f");
+    let owned_req = Message { header: hd, query: q.to_vec(), body: body_bytes[..body_len].to_vec() };
+    let a = h.handle_with_ctx(&owned_req, &ctx);
+    let b = h.handle_view(&view, &ctx);
+    match (&a, &b) {
+        (Ok(x), Ok(y)) => assert!(same_after_echo(x, y, &q), "copying and zero-copy paths answer differently"),
+        (Err(x), Err(y)) => assert!(x.to_error_code() == y.to_error_code(), "copying and zero-copy paths fail differently"),
+        _ => panic!("one dispatch path succeeds where the other fails"),
+    }
+    kani::cover!(a.is_ok());
+    std::mem::forget(a);
+    std::mem::forget(b);
+    std::mem::forget(owned_req);
+}
+
+//@ prop: C07, C08
+//@ tier: experimental
+//@ timeout: 2400
+//@ clause: copying and zero-copy paths agree for the bulk-slice handler on arbitrary body bytes and every body-format code; a body of the wrong format is rejected with InvalidBody rather than reinterpreted
+//@ funcs: TypedSliceHandler::<u8,u8>::handle; ::handle_view; decode_typed_slice_param(_view); beve::read_typed_slice::<u8>; create_typed_slice_response_unstamped(_view)
+//@ symbolic: all header fields incl. body_format over all u16; 3 arbitrary body bytes (well-formed and malformed BEVE)
+//@ bounds: element type u8; body 3 bytes; unwind 8
+//@ oracle: responses equal after echo; body_format != Beve => ec == InvalidBody on both paths
+//@ stubs: alloc::fmt::format -> empty String
+#[kani::proof]
+#[kani::stub(std::fmt::format, crate::verif_common::format_stub)]
+#[kani::unwind(8)]
+fn c07_owned_vs_view_typed_slice_u8() {
+    let h = TypedSliceHandler::<u8, u8, _>(|v: Vec<u8>| Ok(v), std::marker::PhantomData);
+    owned_vs_view_filtered(&h, None, 3);
+}
+
+struct EchoIdHandler;
+impl HandlerErased for EchoIdHandler {
+    fn handle(&self, req: &Message) -> Result<Message, RepeError> {
+        let mut m = Message::builder().id(req.header.id).body_bytes(req.body.clone()).build();
+        m.header.ec = req.header.body_format as u32;
+        m.header.query_format = req.header.query_format;
+        Ok(m)
+    }
+}
+
+//@ prop: C07
+//@ tier: quick
+//@ clause: a handler that does not override the borrowed path answers identically through it (the default borrowed path materialises the request and delegates), also behind the off-reader wrapper
+//@ funcs: HandlerErased::handle_view (default); HandlerErased::handle_with_ctx (default); OffReaderHandler::{handle,handle_with_ctx,execution}; MessageView::to_message
+//@ symbolic: all header fields (id, formats, notify, ec, reserved), 3 body bytes
+//@ bounds: custom erased handler echoing id/body/format codes; query "/f"; body 3 bytes; the built-in JSON / typed handlers' paired implementations are outside (their serde parsers get encoded even on rejected formats)
+//@ oracle: responses equal field by field
+#[kani::proof]
+#[kani::unwind(8)]
+fn c07_owned_vs_view_default_delegation() {
+    let h = OffReaderHandler(EchoIdHandler);
+    assert!(h.execution() == Execution::OffReader);
+    owned_vs_view_filtered(&h, None, 3);
+}
